@@ -72,6 +72,7 @@ func newFnorm(fd *ast.FuncDecl) *fnorm {
 	fn.nz = newNormalizer(fd)
 	fn.collect()
 	fn.findErrs()
+	fn.notErrs()
 	fn.findInline()
 	return fn
 }
@@ -222,6 +223,55 @@ func (fn *fnorm) findErrs() {
 			}
 			if all {
 				fn.errs[o] = true
+			}
+		}
+		return true
+	})
+}
+
+// notErrs: (e) a local that is used as a bare BOOLEAN — an operand of `!`, `&&`, `||`, or the whole
+// condition of an `if` / `for` — is not an error variable, whatever rule (a) says: `exitCode,
+// isExitError := interp.IsExitStatus(err)`, `v, ok := f()`.  A condition on such a local is a guard
+// like any other (it is printed, and what sits behind it is guarded by it).
+func (fn *fnorm) notErrs() {
+	drop := func(e ast.Expr) {
+		if o := fn.obj(e); o != nil {
+			delete(fn.errs, o)
+		}
+	}
+	var operands func(e ast.Expr)
+	operands = func(e ast.Expr) {
+		switch x := e.(type) {
+		case *ast.ParenExpr:
+			operands(x.X)
+		case *ast.UnaryExpr:
+			if x.Op == token.NOT {
+				operands(x.X)
+			}
+		case *ast.BinaryExpr:
+			if x.Op == token.LAND || x.Op == token.LOR {
+				operands(x.X)
+				operands(x.Y)
+			}
+		case *ast.Ident:
+			drop(x)
+		}
+	}
+	ast.Inspect(fn.fd.Body, func(n ast.Node) bool {
+		switch x := n.(type) {
+		case *ast.IfStmt:
+			operands(x.Cond)
+		case *ast.ForStmt:
+			if x.Cond != nil {
+				operands(x.Cond)
+			}
+		case *ast.UnaryExpr:
+			if x.Op == token.NOT {
+				operands(x.X)
+			}
+		case *ast.BinaryExpr:
+			if x.Op == token.LAND || x.Op == token.LOR {
+				operands(x)
 			}
 		}
 		return true
